@@ -7,6 +7,7 @@ import (
 	"io"
 	"math"
 	"math/rand"
+	"reflect"
 	"regexp"
 	"strings"
 	"time"
@@ -152,6 +153,12 @@ func c06Decode(r *core.Run, regime, kind string, bc *blockCase, data []byte, dec
 						return
 					}
 				}
+				for _, rc := range ares {
+					if msg := c06RowsPanic(rc.Data, blk.Rows); msg != "" {
+						r.Violation("inconsistent:row-accessor-panics:inferred", fmt.Sprintf("%s/%s: decoding succeeded (rows=%d) but Row(i) of the inferred column %q (%s) panics: %s", regime, kind, blk.Rows, rc.Name, clipN([]byte(rc.Data.Type()), 60), firstLineOf(msg)), cs())
+						return
+					}
+				}
 				if len(ares) > 0 {
 					if at, err := ref.ParseType(string(ares[0].Data.Type())); err == nil {
 						if _, err := val.ReadCol(ares[0].Data, at); err != nil && strings.Contains(err.Error(), "panicked") {
@@ -243,6 +250,22 @@ func c06DecodeCompressed(r *core.Run, kind string, bc *blockCase, data []byte, a
 		return "error"
 	}
 	return "ok"
+}
+
+// c06RowsPanic calls Row(i) of any column through reflection (ColAuto unwrapped) for every row.
+func c06RowsPanic(col proto.ColResult, rows int) string {
+	if a, ok := col.(*proto.ColAuto); ok && a.Data != nil {
+		col = a.Data
+	}
+	m := reflect.ValueOf(col).MethodByName("Row")
+	if !m.IsValid() || m.Type().NumIn() != 1 {
+		return ""
+	}
+	return core.Recover(func() {
+		for i := 0; i < rows && i < col.Rows(); i++ {
+			m.Call([]reflect.Value{reflect.ValueOf(i)})
+		}
+	})
 }
 
 // c06BadBool: does the value (shaped like t) contain a Bool leaf whose byte is not 0 or 1?
